@@ -2,8 +2,9 @@
    Only statements, each closed by [exact] of a lemma of C21/Proofs.v, and their assumptions.
    Vocabulary: C21/Model.v ([matches], [build], the rule and message records) mirrors the code;
    C21/Spec.v ([matches_spec], [local], [known_C21]) is the D-Bus specification's semantics, the documented
-   exemption and the three known deviation classes (two earlier ones were repaired in /repo by fix 8cf9b673:
-   destination against a message without destination, path_namespace as a string prefix; they are now covered by C21_partial). *)
+   exemption and the two known deviation classes (three earlier ones were repaired in /repo — fix 8cf9b673: destination
+   against a message without destination, path_namespace as a string prefix; fix 3ae57b16: arg0namespace read a non-string
+   first argument — and are now covered by C21_partial). *)
 From ZV Require Import Base.Bytes Base.Res C21.Model C21.Spec C21.Proofs.
 
 (* The full statement (kept visible; refuted below on the pinned tree). *)
@@ -55,11 +56,10 @@ Theorem C21_sole_struct_refuted :
 Proof. exact sole_struct_refuted. Qed.
 Print Assumptions C21_sole_struct_refuted.
 
-Theorem C21_arg0ns_untyped_refuted :
+Theorem C21_sole_struct_arg0ns_refuted :
   let m := {| m_type := Signal; m_sender := Some (B ":1.7"); m_interface := Some (B "a.b"); m_member := Some (B "M");
-              m_path := Some (B "/"); m_destination := None;
-              m_body := [AU32 3; AByte "a"; AByte "."; AByte "b"; AByte x00] |} in
+              m_path := Some (B "/"); m_destination := None; m_body := [AStructSU (B "a.b") 7] |} in
   exists r, build [OArg0ns (B "a")] = Ok r /\ local r m = true /\ matches r m = Ok true /\
             forall owns, matches_spec owns r m = false.
-Proof. exact arg0ns_untyped_refuted. Qed.
-Print Assumptions C21_arg0ns_untyped_refuted.
+Proof. exact sole_struct_arg0ns_refuted. Qed.
+Print Assumptions C21_sole_struct_arg0ns_refuted.
